@@ -56,7 +56,7 @@ def run(ctx):
     quick = ctx.tier == 'quick'
     ctx.extra['rule'] = ('URL texts = %d bases followed by every sequence of up to 2 of %d pieces (;, #, @, brackets, $, braces, blanks incl. U+3000, line break, ${NAME} forms: set / unset / reserved / '
                          'lower-case / unbraced / unterminated / empty) x %d following contexts (end, marker with and without blanks on either side of `;`, comment-like tails, line break) x %d '
-                         'environments for the referenced variable (unset, plain, with blank, with ` ;`, empty, non-ASCII, a URL, a self-reference, `#`); for each: the reference reading of the property in '
+                         'environments for the referenced variable (unset, plain, with blank, with ` ;`, empty, non-ASCII, a URL, a self-reference, `#`), and PROJECT_ROOT unset / set / empty; for each: the reference reading of the property in '
                          'Python (URL = text up to the first blank followed by blanks* and `;`/`#`/end, or to a line break; a glued `;`/`#` followed by a blank is ambiguous unless a marker or the end '
                          'follows) decides the expected URL text / error kind; expected URL = Url::parse of the regex-expanded text; given() must be the unexpanded text; plus expand_env_vars vs the regex '
                          'reference and the model on the same texts; plus the full model comparison (C07 machinery). sampling rate of length-2 sequences %.2f. non-trivial = distinct (outcome kind, stop reason, '
@@ -156,6 +156,36 @@ def run(ctx):
                             ctx.failure('%r = URL %r followed only by blanks is rejected: %r' % (text, utext, io[:4]), {'entry': 'Requirement::from_str', 'input': text, 'env': env})
         rm.reset_tables()
     sess.ask(['unsetenv', S('VERIF_V')])
+    # the reserved name: the working directory only when PROJECT_ROOT is unset; a set variable wins
+    for pr in (None, '/opt/verif/project', '', 'rel dir'):
+        if pr is None:
+            sess.ask(['unsetenv', S('PROJECT_ROOT')])
+            env = {}
+        else:
+            sess.ask(['setenv', S('PROJECT_ROOT'), S(pr)])
+            env = {'PROJECT_ROOT': pr}
+        rm.env_changed()
+        for u in ['file://${PROJECT_ROOT}/pkg.whl', 'https://h/${PROJECT_ROOT}', '${PROJECT_ROOT}', 'https://h/${PROJECT_ROOT}${PROJECT_ROOT}x', 'https://h/$PROJECT_ROOT/${project_root}']:
+            ctx.evaluations += 1
+            want = expand_ref(u, env, root)
+            got = sess.ask(['expandenv', S(u)])
+            ctx.oracle_cases += 1
+            ctx.nontrivial(('project-root', pr, u))
+            if got[0] != 'ok' or unS(got[1]) != want:
+                ctx.failure('expand_env_vars(%r) with PROJECT_ROOT=%r gives %r, the property reads %r' % (u, pr, unS(got[1]) if got[0] == 'ok' else dump(got), want),
+                            {'entry': 'expand_env_vars', 'input': u, 'env': env})
+            m = rm.run(['expand', S(u)])
+            ctx.corr_cases += 1
+            if m[0] != 'ok' or unS(m[1]) != (unS(got[1]) if got[0] == 'ok' else None):
+                ctx.disagreement('expand ~ expand_env_vars', u, dump(m)[:200], dump(got)[:200])
+            text = 'name @ ' + u + " ; os_name == 'a'"
+            r, io, mm = reqmodel.compare_req(ctx, sess, rm, text, True, None)
+            if io[0] == 'ok':
+                exp = sess.ask(['urlparse', 'F', 'none', S(want)])
+                if exp[0] != 'ok' or unS(exp[1]) != unS(r[3][1]) or unS(r[3][2]) != u:
+                    ctx.failure('the URL of %r with PROJECT_ROOT=%r is %r (given %r); expected Url::parse(%r) and the source text' % (text, pr, unS(r[3][1]), dump(r[3][2])[:60], want),
+                                {'entry': 'Requirement::from_str', 'input': text, 'env': env})
+    sess.ask(['unsetenv', S('PROJECT_ROOT')])
     ctx.extra['oracle_table_fills'] = rm.misses
     rm.close()
     sess.close()
